@@ -19,14 +19,50 @@ Proof.
       destruct (N.eqb a sep) eqn:E; auto. apply N.eqb_eq in E. exfalso. apply H. auto.
 Qed.
 
-Lemma name_ok_nm x : name_ok x = true <-> nm x.
+Lemma lex_name_ok_nm x : lex_name_ok x = true <-> nm x.
 Proof.
-  unfold name_ok, nm, normal. rewrite !andb_true_iff, !negb_true_iff, !bytes_eqb_neq, forallb_nosep.
+  unfold lex_name_ok, nm, normal. rewrite !andb_true_iff, !negb_true_iff, !bytes_eqb_neq, forallb_nosep.
   destruct x; simpl; intuition congruence.
 Qed.
 
-Lemma forallb_name_ok cs : forallb name_ok cs = true <-> Forall nm cs.
-Proof. rewrite forallb_forall, Forall_forall. split; intros H x Hx; apply name_ok_nm; auto. Qed.
+Lemma forallb_lex_name_ok cs : forallb lex_name_ok cs = true <-> Forall nm cs.
+Proof. rewrite forallb_forall, Forall_forall. split; intros H x Hx; apply lex_name_ok_nm; auto. Qed.
+
+(* no NUL byte *)
+Definition nonul (x : bytes) : Prop := has_nul x = false.
+
+Lemma forallb_name_ok cs : forallb name_ok cs = true <-> Forall nm cs /\ Forall nonul cs.
+Proof.
+  rewrite forallb_forall, !Forall_forall. unfold name_ok, nonul. split.
+  - intros H. split; intros x Hx; specialize (H x Hx); apply andb_true_iff in H; destruct H as [H1 H2].
+    + apply lex_name_ok_nm; auto.
+    + apply negb_true_iff; auto.
+  - intros [H1 H2] x Hx. apply andb_true_iff. split; [apply lex_name_ok_nm; auto|].
+    apply negb_true_iff. apply H2; auto.
+Qed.
+
+Lemma has_nul_app a b : has_nul (a ++ b) = has_nul a || has_nul b.
+Proof. unfold has_nul. apply existsb_app. Qed.
+
+Lemma has_nul_joinc cs : has_nul (joinc cs) = existsb has_nul cs.
+Proof.
+  induction cs as [|c cs IH]; [reflexivity|].
+  destruct cs as [|d cs].
+  - simpl. rewrite orb_false_r. reflexivity.
+  - rewrite joinc_cons by discriminate. rewrite has_nul_app.
+    change (has_nul (sep :: joinc (d :: cs))) with (has_nul (joinc (d :: cs))).
+    rewrite IH. reflexivity.
+Qed.
+
+Lemma has_nul_render cs : has_nul (render cs) = false <-> Forall nonul cs.
+Proof.
+  unfold render. change (has_nul (sep :: joinc cs)) with (has_nul (joinc cs)).
+  rewrite has_nul_joinc. unfold nonul. induction cs as [|c cs IH]; simpl.
+  - split; auto.
+  - rewrite orb_false_iff, IH. split.
+    + intros [H1 H2]. constructor; auto.
+    + intros H. inversion H; auto.
+Qed.
 
 Lemma nm_nonempty x : nm x -> x <> []. Proof. intros [[H _] _]; auto. Qed.
 
